@@ -217,7 +217,7 @@ def main():
         print("MANIFEST.json written (jsonschema not available for validation)")
 
 
-HOOK_COMMITS = ["7047929", "25490b6"]
+HOOK_COMMITS = ["7047929", "25490b6", "03d4b0c"]
 
 if __name__ == "__main__":
     main()
